@@ -32,6 +32,7 @@ def init_rules(model, R):
         it = l.iter
         ok = False
         found = src(it)
+        parsed = False
         if isinstance(it, ast.Call) and name_is(it.func, 'enumerate') and len(it.args) == 1 and not it.keywords:
             s = it.args[0]
             if isinstance(s, ast.Call) and name_is(s.func, 'sorted') and len(s.args) == 1:
@@ -41,9 +42,12 @@ def init_rules(model, R):
                 ok = (chain(s.args[0]) == [inst, '_concepts'] and kname == '_longlex' and 'reverse' not in kws and set(kws) == {'key'})
                 if 'reverse' in kws or kname != '_longlex':
                     found = f'key={kname}, reverse={src(kws.get("reverse"))}'
+                # sorted(<all members>, key=<a key function of this class>[, reverse=...]) is the recognised construct: its slots decide
+                parsed = chain(s.args[0]) == [inst, '_concepts'] and kname in ('_longlex', '_shortlex') and set(kws) <= {'key', 'reverse'}
         R.check(ok, 'ORDER', f, l, 'dindex = position in long-lexicographic order of all members',
                 f'for dindex, c in enumerate(sorted({inst}._concepts, key={inst}._longlex))', found,
-                extra={'note': 'reversed shortlex is a different order than longlex (ties within one size are ordered the same way)'})
+                extra={'note': 'reversed shortlex is a different order than longlex (ties within one size are ordered the same way)'},
+                strict=True if parsed else None)
         dv, cv = (t.id for t in l.target.elts)
         a = [s for s in l.body if isinstance(s, ast.Assign) and chain(s.targets[0]) == [cv, 'dindex']]
         R.check(len(a) == 1 and name_is(a[0].value, dv), 'ORDER', f, a[0] if a else l, 'dindex assigned from the enumeration', f'{cv}.dindex = {dv}')
